@@ -44,8 +44,13 @@ def scramble(g, rng):
     order = nodes[:]
     rng.shuffle(order)
     h = nx.Graph()
+    stale = rng.random() < .35
     for a in order:
         h.add_node(ren[a], **copy.deepcopy(g.nodes[a]))
+        if stale:
+            # class numbers left over from an earlier partitioning of other data (a canonical graph that was edited
+            # or assembled from canonical pieces): the pipeline starts from the invariant codes, not from these
+            h.nodes[ren[a]]["partition"] = rng.randrange(3)
     edges = list(g.edges(data=True))
     rng.shuffle(edges)
     for u, v, d in edges:
@@ -161,6 +166,18 @@ def check_one(run, model, am, opts, nrel, rng, groups=None):
             if ans != "ok " + hx(s):
                 diff("K7", "serialization differs on the implementation's canonical graph",
                      {"model": unhx(ans[3:]) if ans.startswith("ok ") else ans, "impl": s})
+                if groups is not None:
+                    # difference-guided search: the molecule that the implementation's own parser reads from the emitted
+                    # string joins the run's molecules (C02: if it gets the same string, it must be the same molecule)
+                    try:
+                        g_other = impl.graph_from_tucan(s)
+                        s_other = impl.tucan_of(g_other)
+                        other = am_of_graph(g_other)
+                        other.family = "denoted-by-emitted-string"
+                        groups.setdefault(s_other, []).append(other)
+                        run.count("diff_guided_molecules")
+                    except Exception:
+                        pass
             ans2 = model.q("tucan " + enc_pairs(sorted((lab_of[t_], cl) for t_, cl in lam.items())) + " " + enc_mol(atoms_m, bonds_m))
             if ans2 != "ok " + hx(s):
                 diff("K7", "model pipeline (classes, relabel by the implementation's labelling, serialize) differs",
